@@ -263,3 +263,44 @@ def render(g, order, hoist):
         out.append(render_node(g, x))
         defined.add(name)
     return "\n".join(out) + "\n"
+
+
+def generate_nested(rng):
+    """C++ text: templates whose members are nested instantiation expressions mixing enclosing parameters, builtins and earlier templates
+    (`Slot<Entry<T, int>>`, `Entry<Slot<T>, Slot<int>> *`), used from other templates and from plain structs, typedefs and functions."""
+    tpls, out = [], []
+    builtins = ["int", "char", "double", "long", "bool", "unsigned short"]
+
+    def expr(params, depth):
+        r = rng.random()
+        if depth <= 0 or not tpls or r < 0.25:
+            pool = params * 2 + builtins if params else builtins
+            return rng.choice(pool)
+        t, n = rng.choice(tpls)
+        return "%s<%s>" % (t, ", ".join(expr(params, depth - 1) for _ in range(n)))
+
+    def members(params, k):
+        ms = []
+        for j in range(k):
+            e = expr(params, rng.randint(1, 3))
+            ms.append(rng.choice(["%s m%d;", "%s m%d;", "%s *m%d;", "%s m%d[2];", "const %s &m%d;"]) % (e, j))
+        return ms
+    for i in range(rng.randint(2, 6)):
+        np_ = rng.randint(1, 3)
+        params = ["P%d" % j for j in range(np_)]
+        ms = members(params, rng.randint(1, 3))
+        if rng.random() < 0.2:
+            ms.append("typedef %s inner_t;" % expr(params, 2))
+        if rng.random() < 0.2:
+            ms.append("static %s sfn(%s);" % (expr(params, 1), expr(params, 2)))
+        out.append("template <%s> struct N%d { %s };" % (", ".join("typename " + p for p in params), i, " ".join(ms)))
+        tpls.append(("N%d" % i, np_))
+    for i in range(rng.randint(1, 4)):
+        r = rng.random()
+        if r < 0.5:
+            out.append("struct U%d { %s };" % (i, " ".join(m for m in members([], rng.randint(1, 3)) if "&" not in m) or "int z;"))
+        elif r < 0.75:
+            out.append("typedef %s td%d;" % (expr([], 3), i))
+        else:
+            out.append("%s fn%d(%s *a, %s b);" % (rng.choice(["void", "int"]), i, expr([], 2), expr([], 2)))
+    return "\n".join(out) + "\n"
